@@ -8,7 +8,7 @@ from ..callgraph import callgraph
 from ..cfg import cfg_of, edges_dominate, node_calls, nodes_dominate, reach
 from ..defuse import def_value, derives_from, reaching_defs, resolve_alias
 from ..esp import UNKNOWN, run_function
-from ..model import Repo, body_nodes, norm, short
+from ..model import Repo, ancestors, body_nodes, norm, short
 from .C12 import fmt_taint_fragment
 from .common import dispatch_ops, generic_class, trace_str, undecided_class
 from .emit import emission_sites
@@ -228,6 +228,25 @@ def import_step(repo: Repo, rep):
                         rep.ok("R-IMPORT-STEP", f, a.ast, f"`{name}` requested iff {fn}(tree)")
                     else:
                         rep.violation("R-IMPORT-STEP", f, a.ast, f"the import of `{name}` is not requested under {fn}(tree)", construct=f"{f.qualname}:{name}:guard")
+            # the file that gets the import is the file of this iteration: `ensure_import(<v>.filename, ..)` with <v> the variable of the
+            # enclosing loop over the recorder's files (not a variable left over from an earlier loop)
+            floops = [a_ for a_ in ancestors(c) if isinstance(a_, ast.For) and isinstance(a_.iter, ast.Call) and isinstance(a_.iter.func, ast.Attribute) and a_.iter.func.attr == "files"]
+            if floops and c.args:
+                lv = floops[0].target.id if isinstance(floops[0].target, ast.Name) else None
+                root = c.args[0]
+                while isinstance(root, (ast.Attribute, ast.Call)):
+                    root = root.value if isinstance(root, ast.Attribute) else (root.args[0] if root.args else root.func)
+                if isinstance(root, ast.Name) and root.id == lv:
+                    rep.ok("R-IMPORT-STEP", f, c, f"the import goes into the file of this iteration (`{lv}`)")
+                else:
+                    rep.violation(
+                        "R-IMPORT-STEP",
+                        f,
+                        c,
+                        f"`{short(c, 60)}` names the file through `{short(c.args[0], 30)}`, not through the loop variable `{lv}` of the files being written: with several files the import lands in another file "
+                        "(or in a file without approved changes, which ends the session with an error) and the file that needs it gets none",
+                        construct=f"{f.qualname}:import-file",
+                    )
             # tree = ast.parse(file.new_code())
             trees = [x for x in cfg.stmts(ast.Assign) if isinstance(x.ast.value, ast.Call) and norm(x.ast.value.func) == "ast.parse"]
             if trees and all("new_code()" in norm(t.ast.value) for t in trees):
